@@ -4,7 +4,7 @@
    Combine, every loop body callback.  This is the part of "the output builds" (C11) that the
    rewriter is responsible for through generateLastNormalIfNecessary / combineIfNecessary. *)
 From Coq Require Import List Arith Bool Lia.
-From Verif Require Import Base Syntax Rewrite Side RwCorrect Accept.
+From Verif Require Import Base Syntax Rewrite Side P3Rel RwCorrect Accept.
 Import ListNotations.
 
 (* the last statement of a function body is terminating (isTerminating = the transcribed checker) *)
@@ -12,6 +12,72 @@ Import ListNotations.
    `return seq.Break() / seq.Continue()` by pass3: Placement.v) *)
 Definition termS (s : stmt) : Prop := isTerminating s = true \/ s = SBreak \/ s = SContinue \/ s = SFallthrough.
 Definition lastT (l : list stmt) : Prop := exists s, last (map Some l) None = Some s /\ termS s.
+
+Lemma supp2_S sf k s :
+  supp2 sf (S k) s =
+    match s with
+    | SAtom _ | SYield _ | SBreak | SContinue => true
+    | SFallthrough => negb sf
+    | SRet XReturn => true
+    | SBlock b => forallb (supp2 sf k) b
+    | SIf i c t e =>
+        init_ok i && forallb (supp2 sf k) t &&
+        match e with
+        | ENone => true
+        | EElse b => forallb (supp2 sf k) b
+        | EElif x => is_if x && supp2 sf k x
+        end
+    | SFor i c p b => init_ok2 i && post_okb k p b && forallb (supp2 sf k) b
+    | SSwitch i t cs => init_ok2 i && forallb (fun lb => clause_ok (supp2 sf k) k (snd lb)) cs
+    | _ => false
+    end.
+Proof. reflexivity. Qed.
+
+Lemma forallb_ext_in {A} (f g : A -> bool) l : (forall x, In x l -> f x = g x) -> forallb f l = forallb g l.
+Proof. induction l as [|a r IH]; intros H; [reflexivity|]. cbn. rewrite (H a (or_introl eq_refl)), IH; [reflexivity|]. intros x Hx. apply H. right. exact Hx. Qed.
+
+Lemma supp2_false k : forall s, supp2 false k s = supp k s.
+Proof.
+  induction k as [|k IH]; intros s; [reflexivity|]. rewrite supp2_S, supp_S.
+  assert (HL : forall l, forallb (supp2 false k) l = forallb (supp k) l) by (intros l; apply forallb_ext_in; intros x _; apply IH).
+  destruct s as [a|v|b|i c t e|i tag cs|i c p b| | | | |e]; try reflexivity.
+  - apply HL.
+  - rewrite (HL t). destruct e as [|eb|x]; [reflexivity|rewrite (HL eb); reflexivity|rewrite (IH x); reflexivity].
+  - f_equal. apply forallb_ext_in. intros lb _. unfold clause_ok. rewrite (HL (snd lb)). reflexivity.
+  - rewrite (HL b). reflexivity.
+Qed.
+
+Lemma supp2_supp sf k : forall s, supp2 sf k s = true -> supp k s = true.
+Proof.
+  induction k as [|k IH]; intros s H; [discriminate|]. rewrite supp2_S in H. rewrite supp_S.
+  assert (HL : forall l, forallb (supp2 sf k) l = true -> forallb (supp k) l = true).
+  { intros l. apply forallb_imp. exact IH. }
+  destruct s as [a|v|b|i c t e|i tag cs|i c p b| | | | |e]; try exact H; try reflexivity; try discriminate.
+  - apply HL. exact H.
+  - apply andb_prop in H. destruct H as [H He]. apply andb_prop in H. destruct H as [Hi Ht]. rewrite Hi, (HL t Ht).
+    destruct e as [|eb|x]; [reflexivity|rewrite (HL eb He); reflexivity|].
+    apply andb_prop in He. destruct He as [H1 H2]. rewrite H1, (IH x H2). reflexivity.
+  - apply andb_prop in H. destruct H as [Hi Hc]. rewrite Hi. cbn [andb].
+    apply forallb_imp with (f := fun lb => clause_ok (supp2 sf k) k (snd lb)); [|exact Hc].
+    intros lb Hlb. unfold clause_ok in *. apply andb_prop in Hlb. destruct Hlb as [H1 H2]. rewrite (HL _ H1), H2. reflexivity.
+  - apply andb_prop in H. destruct H as [H Hb]. rewrite H, (HL b Hb). reflexivity.
+Qed.
+
+Lemma supps2_supps sf k l : supps2 sf k l = true -> supps k l = true.
+Proof. unfold supps2, supps. apply forallb_imp. apply supp2_supp. Qed.
+
+Lemma supps2_false k l : supps2 false k l = supps k l.
+Proof. unfold supps2, supps. apply forallb_ext_in. intros x _. apply supp2_false. Qed.
+
+Lemma init_ok2_supp2 sf i x k : init_ok2 i = true -> i = Some x -> supp2 sf (S k) x = true.
+Proof. intros H ->. destruct x; try discriminate; reflexivity. Qed.
+
+Section L.
+  Variable sf : bool.
+  Notation supp := (supp2 sf).
+  Notation supps := (supps2 sf).
+  Notation supp_S := (supp2_S sf).
+  Notation init_ok2_supp := (init_ok2_supp2 sf).
 
 Inductive WT : stmt -> Prop :=
 | wt_atom a : WT (SAtom a)
@@ -22,8 +88,8 @@ Inductive WT : stmt -> Prop :=
 | wt_for i c p b : Forall WT b -> WT (SFor i c p b)
 | wt_break : WT SBreak
 | wt_continue : WT SContinue
-| wt_return : WT SReturn
-| wt_fallthrough : WT SFallthrough
+| wt_return : sf = false -> WT SReturn
+| wt_fallthrough : sf = false -> WT SFallthrough
 | wt_ret e : WTX e -> WT (SRet e)
 with WTE : els -> Prop :=
 | wte_none : WTE ENone
@@ -40,14 +106,15 @@ with WTX : sexp -> Prop :=
 | wx_return : WTX XReturn
 with WTT : thunk -> Prop :=
 | wtt_lit l : Forall WT l -> lastT l -> WTT (TLit l)
-| wtt_sig x : WTT (TSig x).
+| wtt_sig x : is_sig x = true -> WTT (TSig x).
 
 Lemma supp_WT k : forall s, supp k s = true -> WT s.
 Proof.
   induction k as [|k IH]; intros s H; [discriminate|].
   assert (HL : forall l, forallb (supp k) l = true -> Forall WT l).
   { intros l Hl. apply Forall_forall. intros x Hx. apply IH. rewrite forallb_forall in Hl. auto. }
-  rewrite supp_S in H. destruct s as [a|v|b|i c t e|i tag cs|i c p b| | | | |e]; try discriminate; try constructor.
+  rewrite supp_S in H. destruct s as [a|v|b|i c t e|i tag cs|i c p b| | | | |e]; try discriminate; try constructor;
+    try (destruct sf; [discriminate H|reflexivity]).
   - apply HL. exact H.
   - apply andb_prop in H. destruct H as [H He]. apply andb_prop in H. destruct H as [Hi Ht]. apply HL. exact Ht.
   - apply andb_prop in H. destruct H as [H He]. destruct e; constructor; [apply HL; exact He|].
@@ -443,3 +510,4 @@ Proof.
   intros Hs H. destruct (proj1 (rw_term f) k ss (mkBlock KDelay) B Hs (tinv_mk KDelay) eq_refl H) as [[Hw [Hd _]] Eb].
   split; [apply Hd; exact Eb|exact Hw].
 Qed.
+End L.
